@@ -21,7 +21,7 @@ func init() {
 			"R18-delegate — table.insert/remove/getn/maxn/concat and unpack reach the list through the LTable list helpers (Append, Insert, Remove, Len, MaxN, RawGetInt) with the documented argument positions; R09-route shared (unpack/concat/ipairs read through RawGetInt, which now agrees with the setters). " +
 			"R18-arrayowner — outside LTable's own methods the array part is read by nobody except table.sort, and there only as array[:Len()]: list functions take their length from the border (Len), never from the physical size of the array part, which may hold trailing nils. NOT decided: insert/remove shifting, concat ranges, ordering of the sorted result, behaviour under inconsistent comparators — list histories and comparator behaviour are run-time quantities.",
 		Trusted: []string{"package sort only rearranges through Swap (stdlib contract)"},
-		Rules:   []func(*Ctx){ruleSwap, ruleDelegate, ruleRoute, ruleArrayReaders},
+		Rules:   []func(*Ctx){ruleSwap, ruleDelegate, ruleRoute, ruleArrayReaders, ruleTableLib},
 	})
 	register(&propInfo{
 		ID:    "C20",
@@ -248,7 +248,15 @@ func ruleDelegate(c *Ctx) {
 				return false
 			}
 			k, ok := constInt(b.Y)
-			return ok && k == 1 && strings.HasPrefix(vkey(b.X), "len(")
+			if !ok || k != 1 {
+				return false
+			}
+			// len(array) - 1, or Len() - 1: the list length taken at the border
+			if strings.HasPrefix(vkey(b.X), "len(") {
+				return true
+			}
+			cl, isCall := stripConv(b.X).(*ssa.Call)
+			return isCall && cl.Call.StaticCallee() == p.Fn("lua", "(*LTable).Len")
 		}
 		n, bad := 0, 0
 		var first ssa.Instruction
@@ -286,8 +294,26 @@ func ruleDelegate(c *Ctx) {
 			if k, ok := constInt(cl.Call.Args[1]); ok && k == -1 {
 				okc = true
 			}
+			// or the reference form: pos = optint(2, #t)
+			if oc, ok := stripConv(cl.Call.Args[1]).(*ssa.Call); ok && oc.Call.StaticCallee() == p.Fn("lua", "(*LState).OptInt") {
+				if lc, ok := stripConv(oc.Call.Args[2]).(*ssa.Call); ok && lc.Call.StaticCallee() == p.Fn("lua", "(*LTable).Len") {
+					okc = true
+				}
+			}
 		}
 		c.check(okc, R, "tableRemove:default-last", p.pos(fn.Pos()), "without a position the last element is removed", "table.remove(t) no longer removes the last element")
+		// positions outside 1..#t remove nothing and yield no value: the Remove call is guarded on both sides
+		g := p.G(fn)
+		okRange := false
+		for _, cl := range callsTo(fn, p.Fn("lua", "(*LTable).Remove")) {
+			up, lo, hasUp, hasLo := boundsSym(g, cl, cl.Call.Args[1])
+			_ = up
+			_ = lo
+			if hasUp && hasLo {
+				okRange = true
+			}
+		}
+		c.check(okRange, R, "tableRemove:position-in-1..n", p.pos(fn.Pos()), "Remove is reached only for 1 <= pos <= #t", "table.remove passes any position to LTable.Remove: position 0 removes the last element and a position on an empty list yields a nil result instead of none")
 	}
 }
 
@@ -623,5 +649,81 @@ func ruleArrayReaders(c *Ctx) {
 			}
 			c.check(okc, R, key, p.ipos(in), "uses array[:Len()] only", fmt.Sprintf("%s reads LTable.array directly (%s): the physical array part can be longer than the list (t[#t] = nil leaves a trailing nil slot), so lengths and elements taken from it disagree with #t — unpack(t) returns extra nils, sort compares nil", fname(fn), why))
 		})
+	}
+}
+
+
+// boundsSym: the path condition bounds v from below by a constant and from above by something (a
+// constant or another value): lo <= v <= X.
+func boundsSym(g *PCFG, at ssa.Instruction, v ssa.Value) (up ssa.Value, lo int64, hasUp, hasLo bool) {
+	vk := vkey(stripConv(v))
+	for _, cd := range g.CondsAtInstr(at) {
+		b, ok := cd.V.(*ssa.BinOp)
+		if !ok {
+			continue
+		}
+		op := b.Op
+		if !cd.Sense {
+			op = negate(op)
+		}
+		x, y := stripConv(b.X), stripConv(b.Y)
+		if vkey(y) == vk && vkey(x) != vk {
+			x, y = y, x
+			op = flip(op)
+		}
+		if vkey(x) != vk {
+			continue
+		}
+		switch op {
+		case token.GEQ, token.GTR:
+			if k, ok := constInt(y); ok {
+				lo, hasLo = k, true
+			}
+		case token.LEQ, token.LSS:
+			up, hasUp = y, true
+		}
+	}
+	return
+}
+
+
+// ruleTableLib: F58/F59. table.concat takes its range as given (no clamping helper between the
+// arguments and the loop) and does not push one value per element onto the limited value stack;
+// table.maxn looks at every key (a traversal), not at the array part alone.
+func ruleTableLib(c *Ctx) {
+	const R = "R18-lib"
+	c.floor(R, 3)
+	p := c.P
+	if fn := c.need(R, "lua", "tableConcat"); fn != nil {
+		g := p.G(fn)
+		clamp := ""
+		allInstrs(fn, func(in ssa.Instruction) {
+			if sc := staticCallee(in); sc != nil && (sc.Name() == "intMin" || sc.Name() == "intMax") {
+				clamp = sc.Name()
+			}
+		})
+		c.check(clamp == "", R, "tableConcat:range-as-given", p.pos(fn.Pos()), "i and j are used as given", "table.concat clamps its range with "+clamp+": concat({'a','b','c'}, ',', 4, 3) returns 'c' instead of the empty string and an index of 0 is silently moved to 1 instead of raising")
+		pushInLoop := false
+		push := p.Fn("lua", "(*LState).Push")
+		for _, li := range g.loops() {
+			for b := range li.Body {
+				for _, in := range b.Instrs {
+					if isCallTo(in, push) && g.Live(in) {
+						pushInLoop = true
+					}
+				}
+			}
+		}
+		c.check(!pushInLoop, R, "tableConcat:not-assembled-on-the-value-stack", p.pos(fn.Pos()), "no push per element", "table.concat pushes every element (and separator) onto the value stack before joining them: a list longer than about half the registry size raises 'registry overflow'")
+	}
+	if fn := c.need(R, "lua", "tableMaxN"); fn != nil {
+		traverses := false
+		fe, nx := p.Fn("lua", "(*LTable).ForEach"), p.Fn("lua", "(*LTable).Next")
+		allInstrs(fn, func(in ssa.Instruction) {
+			if isCallTo(in, fe, nx) {
+				traverses = true
+			}
+		})
+		c.check(traverses, R, "tableMaxN:all-keys", p.pos(fn.Pos()), "every key is visited", "table.maxn looks at the array part only: maxn({[1e9] = 1}) is 0")
 	}
 }
